@@ -544,15 +544,25 @@ int bufr_descriptor_get_range ( BufrDescriptor *cb, double *min, double *max )
          return 0;
       }
 
-   scale_factor = pow(10.0,(double)cb->encoding.scale);
    imax = (1ULL << cb->encoding.nbits) - 1;
 
    x = DESC_TO_X( cb->descriptor );
-   if (x == 31)
-      *max = ( imax + cb->encoding.reference ) / scale_factor;
+   if (x != 31) imax -= 1;
+/*
+ * 10^scale is not representable for a negative scale: multiply by the exact 10^-scale instead of dividing by it
+ */
+   if (cb->encoding.scale < 0)
+      {
+      scale_factor = pow(10.0,(double)(-cb->encoding.scale));
+      *max = ( imax + cb->encoding.reference ) * scale_factor;
+      *min = cb->encoding.reference * scale_factor;
+      }
    else
-      *max = ( imax - 1 + cb->encoding.reference ) / scale_factor;
-   *min = cb->encoding.reference / scale_factor;
+      {
+      scale_factor = pow(10.0,(double)cb->encoding.scale);
+      *max = ( imax + cb->encoding.reference ) / scale_factor;
+      *min = cb->encoding.reference / scale_factor;
+      }
    return 1;
    }
 
